@@ -123,11 +123,26 @@ def parse_mc(out):
     return res
 
 
+def kf_consts(sysd, announce):
+    """TLA+ constants that switch the exemption predicates of known findings on (status known) or off."""
+    kf = sysd.get("kf")
+    if not kf:
+        return ""
+    known = set()
+    p = os.path.join(ROOT, "known_findings.json")
+    if os.path.exists(p):
+        for f in json.load(open(p)).get("findings", []):
+            if f.get("status") == "known":
+                known.add(f["key"])
+    txt = "".join("  %s = %s\n" % (const, "TRUE" if key in known else "FALSE") for key, const in sorted(kf.items()))
+    return txt + "  Announce = %s\n" % ("TRUE" if announce else "FALSE")
+
+
 def model_check(sysd, prop, tier, workdir, workers, timeout):
     """Exhaustive TLC run of the reference machine with the property's formulas."""
     results = []
     for mc in sysd["mc"][tier]:
-        consts = open(os.path.join(ROOT, sysd["dir"], mc["consts"])).read()
+        consts = open(os.path.join(ROOT, sysd["dir"], mc["consts"])).read() + kf_consts(sysd, False)
         cfg = os.path.join(workdir, "mc-%s.cfg" % mc["consts"].replace(".consts", ""))
         write_cfg(cfg, mc.get("spec", "Spec"), consts, invariants=prop.get("mc_inv", []), properties=prop.get("mc_props", []),
                   view=mc.get("view"), symmetry=mc.get("symmetry"), constraint=mc.get("constraint"))
@@ -148,7 +163,7 @@ def model_check(sysd, prop, tier, workdir, workers, timeout):
 
 def generate_schedules(sysd, gen, seed, workdir, timeout=600):
     """Behaviours of the specification as schedules (TLC -simulate, one JSON line per behaviour)."""
-    consts = open(os.path.join(ROOT, sysd["dir"], gen["consts"])).read()
+    consts = open(os.path.join(ROOT, sysd["dir"], gen["consts"])).read() + kf_consts(sysd, False)
     cfg = os.path.join(workdir, "gen-%s.cfg" % gen["consts"].replace(".consts", ""))
     write_cfg(cfg, gen.get("spec", "Spec"), consts, invariants=[gen.get("emit", "EmitSchedule")])
     module = os.path.join(ROOT, sysd["dir"], gen["module"] + ".tla")
@@ -226,7 +241,7 @@ def validate_trace(sysd, prop, trace_paths, workdir, timeout=1200, par=6, chunk_
     """TLC replays the recorded events and evaluates the property's formulas at every step."""
     tr = sysd["trace"]
     cfg = os.path.join(workdir, "trace.cfg")
-    write_cfg(cfg, tr.get("spec", "TSpec"), tr["consts"], invariants=["NoAnomaly"] + prop.get("tr_inv", []),
+    write_cfg(cfg, tr.get("spec", "TSpec"), tr["consts"] + kf_consts(sysd, True), invariants=["NoAnomaly"] + prop.get("tr_inv", []),
               properties=prop.get("tr_props", []), postcondition="Accepted", alias="TraceAlias")
     module = os.path.join(ROOT, sysd["dir"], tr["module"] + ".tla")
     chunks = []
@@ -245,7 +260,7 @@ def validate_trace(sysd, prop, trace_paths, workdir, timeout=1200, par=6, chunk_
             if m:
                 r["events"] = int(m.group(2)) - 1
             v = RE_VIOL.search(out) or RE_VIOL2.search(out)
-            for km in re.finditer(r'<<"KNOWN-FINDING", "([^"]*)", "([^"]*)">>', out):
+            for km in re.finditer(r'"KNOWN-FINDING\|([^|"]*)\|([^"]*)"', out):
                 r["kf"].append((km.group(1), km.group(2)))
             if v:
                 r["violated"] = v.group(1)
